@@ -17,11 +17,12 @@ set_option linter.unusedSimpArgs false
 namespace Raft
 open Node
 
-/-- **Commit needs a current-term entry on a voter majority.** -/
+/-- **Commit needs a current-term entry on a voter majority.** The leader counts itself only if it is a
+    voter (`selfCount`, fix S24). -/
 theorem C04_commit_rule (n : Node) (now : Nat) (h : n.commitIndex < (n.commitStep now).1.commitIndex) :
     n.role = .leader ∧ (n.commitStep now).1.commitIndex ≤ n.log.lastIndex ∧
     ∃ e, n.log.get? (n.commitStep now).1.commitIndex = some e ∧ e.term = n.term ∧
-      n.config.hasQuorum (1 + (n.matchers (n.commitStep now).1.commitIndex).length) = true ∧
+      n.config.hasQuorum (n.selfCount + (n.matchers (n.commitStep now).1.commitIndex).length) = true ∧
       ∀ f ∈ n.matchers (n.commitStep now).1.commitIndex,
         n.config.isVoter f.id = true ∧ f.id ≠ n.id ∧ (n.commitStep now).1.commitIndex ≤ f.mtch := by
   obtain ⟨_, _, _, _, _, hc⟩ := commitStep_spec n now
